@@ -11,6 +11,7 @@ import (
 	"path/filepath"
 	"runtime"
 	"strings"
+	"time"
 
 	corecrl "github.com/notaryproject/notation-core-go/revocation/crl"
 	"github.com/notaryproject/notation-core-go/signature"
@@ -19,6 +20,7 @@ import (
 	"github.com/notaryproject/notation-go/dir"
 	"github.com/notaryproject/notation-go/plugin"
 	"github.com/notaryproject/notation-go/registry"
+	"github.com/notaryproject/notation-go/signer"
 	"github.com/notaryproject/notation-go/verifier"
 	"github.com/notaryproject/notation-go/verifier/crl"
 	"github.com/notaryproject/notation-go/verifier/trustpolicy"
@@ -308,6 +310,7 @@ func (l c12) Exec(env *core.Env) *core.Result {
 			case "odd-verifier":
 				// caller-supplied verifiers that break the (outcome, error) convention, nil collaborators
 				ov := &c12OddVerifier{mode: int(a % 3)}
+				v0, _ := verifier.NewVerifierWithOptions(store, verifier.VerifierOptions{BlobTrustPolicy: world.BlobDoc(world.BlobStatement("bp", "strict", nil, []string{"ca:s"}, []string{"*"}, true))})
 				call.guard("notation.Verify with an odd verifier", func() {
 					notation.Verify(ctx, ov, &c01Repo{desc: ociDesc, sig: validSigs["oci"+world.JWS], mediaType: world.JWS}, notation.VerifyOptions{ArtifactReference: "registry.example/repo@" + ociDesc.Digest.String(), MaxSignatureAttempts: 2})
 					notation.Verify(ctx, nil, nil, notation.VerifyOptions{})
@@ -316,6 +319,28 @@ func (l c12) Exec(env *core.Env) *core.Result {
 					notation.SignBlob(ctx, nil, nil, notation.SignBlobOptions{})
 					verifier.NewVerifierWithOptions(nil, verifier.VerifierOptions{})
 					verifier.NewVerifierWithOptions(store, verifier.VerifierOptions{})
+					// odd signing options: a result or an error, never a panic, never a signature for an illegal request
+					sg := world.NewSigner(chain)
+					for i, o := range []notation.SignerSignOptions{
+						{SignatureMediaType: world.JWS, ExpiryDuration: -time.Second},
+						{SignatureMediaType: world.JWS, ExpiryDuration: 1500 * time.Millisecond},
+						{SignatureMediaType: ""},
+						{SignatureMediaType: "application/pkcs7"},
+						{SignatureMediaType: world.COSE, Timestamper: world.NewTSA(world.TSAOpts{Tag: "t"})},
+						{SignatureMediaType: world.COSE, TSARootCAs: world.NewTSA(world.TSAOpts{Tag: "t"}).Pool()},
+					} {
+						if sig, _, err := notation.SignBlob(ctx, sg, bytes.NewReader(blob), notation.SignBlobOptions{SignerSignOptions: o, ContentMediaType: "text/plain"}); err == nil {
+							res.Violate("C12/illegal-sign-options-accepted", fmt.Sprint("variant ", i), "SignBlob returned %d bytes for illegal options %+v", len(sig), o)
+						}
+					}
+					notation.SignBlob(ctx, sg, nil, notation.SignBlobOptions{SignerSignOptions: notation.SignerSignOptions{SignatureMediaType: world.JWS}, ContentMediaType: "text/plain"})
+					notation.SignBlob(ctx, sg, bytes.NewReader(blob), notation.SignBlobOptions{SignerSignOptions: notation.SignerSignOptions{SignatureMediaType: world.JWS}, ContentMediaType: ""})
+					notation.SignBlob(ctx, sg, bytes.NewReader(blob), notation.SignBlobOptions{SignerSignOptions: notation.SignerSignOptions{SignatureMediaType: world.JWS}, ContentMediaType: "not a media type;;;"})
+					notation.VerifyBlob(ctx, v0, bytes.NewReader(blob), []byte("x"), notation.VerifyBlobOptions{BlobVerifierVerifyOptions: notation.BlobVerifierVerifyOptions{SignatureMediaType: "application/pkcs7"}})
+					notation.VerifyBlob(ctx, v0, bytes.NewReader(blob), []byte("x"), notation.VerifyBlobOptions{BlobVerifierVerifyOptions: notation.BlobVerifierVerifyOptions{SignatureMediaType: world.JWS}, ContentMediaType: "bad;;type"})
+					signer.NewGenericSignerFromFiles("", "")
+					signer.NewGenericSignerFromFiles(filepath.Join(cfgDir, "missing.key"), filepath.Join(cfgDir, "missing.crt"))
+					signer.NewPluginSigner(nil, "", nil)
 				})
 				sim.Abstract(fmt.Sprint("odd-verifier", a%3))
 			case "policyfile":
